@@ -1216,6 +1216,7 @@ class ChoicePayloadDecoder(ConstructedPayloadDecoderBase):
 
                 if isinstance(component, SubstrateUnderrunError):
                     yield component
+                    continue
 
                 if component is eoo.endOfOctets:
                     break
